@@ -824,6 +824,49 @@ def g_doc(r, lib):
     return {'pre': pre, 'root': root, 'post': post}
 
 
+def g_big_doc(r, lib, target):
+    """a document whose serialization exceeds `target` characters (buffers of the serializers are 8 KB and 64 KB):
+    a generated root with many generated children"""
+    doc = g_doc(r, lib)
+    doc['pre'], doc['post'] = [], []
+    root = doc['root']
+    plainify(root)
+    size = len(render_elem(root))
+    while size < target:
+        kid = g_elem(r, 1, [r.choice([3, 6, 10])], '', set())
+        plainify(kid)
+        root['kids'].append(kid)
+        size += len(render_elem(kid))
+        if r.random() < 0.4:
+            t = g_text(r, cr_ok=False).replace('\x85', ' ').replace('\u2028', ' ')
+            if t:
+                root['kids'].append(['t', t])
+                size += len(esc_text(t))
+                kid = g_elem(r, 1, [3], '', set())
+                plainify(kid)
+                root['kids'].append(kid)
+                size += len(render_elem(kid))
+    return doc
+
+
+def plainify(e):
+    """big documents avoid the ingredients of recorded defects (carriage returns, comments and PIs), whose first
+    difference would otherwise hide anything else that goes wrong in a large document"""
+    kids = []
+    for k in e['kids']:
+        if isinstance(k, dict):
+            plainify(k)
+            kids.append(k)
+        elif k[0] == 't':
+            t = k[1].replace('\r', ' ').replace('\x85', ' ').replace('\u2028', ' ')
+            if kids and not isinstance(kids[-1], dict) and kids[-1][0] == 't':
+                kids[-1] = ['t', kids[-1][1] + t]
+            elif t:
+                kids.append(['t', t])
+    e['kids'] = kids
+    e['att'] = [[n, v.replace('\r', ' ').replace('\x85', ' ').replace('\u2028', ' ')] for n, v in e['att']]
+
+
 def esc_text(s):
     return s.replace('&', '&amp;').replace('<', '&lt;').replace('>', '&gt;').replace('\r', '&#13;')
 
@@ -1044,6 +1087,8 @@ def check_xml_tree(case, out):
     for f in sorted(feats):
         out.dim('xml_feature', f)
     out.dim('xml_lib', lib)
+    n_text = len(text) if isinstance(locals().get('text'), str) else len(render_doc(case['doc']))
+    out.dim('xml_size', '<8K' if n_text < 8192 else '8K-64K' if n_text < 65536 else '>=64K')
     out.dim('xml_context', kind + ('+tail' if has_tail else ''))
     if doc['pre'] or doc['post']:
         out.dim('xml_feature', 'document-level-comment-or-pi')
@@ -1263,6 +1308,11 @@ def run(h):
         else:
             node = r.choice(inner)
         h.case('xml_tree', {'doc': doc, 'lib': lib, 'node': node, 'asdoc': r.random() < 0.5})
+    # documents larger than the serializers' buffers
+    for i, target in enumerate((9000, 9000, 20000, 20000, 70000, 70000)):
+        lib = libs[i % 2]
+        doc = g_big_doc(r, lib, target)
+        h.case('xml_tree', {'doc': doc, 'lib': lib, 'node': r.choice(['document', 0]), 'asdoc': r.random() < 0.5})
 
 
 def floors(v):
@@ -1288,6 +1338,9 @@ def floors(v):
                 'number/exponent-repr', 'number/fixed-repr', 'number/zero', 'key/backslash'):
         if v.got('json_text_ingredient', cls) < 10:
             reasons.append('json_text ingredient %s seen fewer than 10 times' % cls)
+    for size in ('8K-64K', '>=64K'):
+        if v.got('xml_size', size) < 2:
+            reasons.append('fewer than 2 documents of size %s' % size)
     for f in ('comment', 'pi', 'mixed-content', 'default-ns', 'prefixed-element', 'prefixed-attribute',
               'text:markup-chars', 'text-after-misc'):
         if v.got('xml_feature', f) < 30:
